@@ -40,7 +40,8 @@ Chain(u, f, r, kind, stack) ==
        nm == FragName(r)
        i  == SlotAt(u, tf, k, nm)
    IN
-   IF IsInlFrag(r)
+   IF tf # f /\ FileBroken(u, tf) THEN [v |-> -1, hops |-> <<>>]          \* the document cannot be loaded
+   ELSE IF IsInlFrag(r)
    THEN LET j == InlSlot(u, tf, r, kind) IN
         (IF j = 0 \/ ~IsConcrete(u.slots[j].c) \/ InlAt(u.slots[j].c, InlSite(r)) = "" THEN [v |-> -1, hops |-> <<>>]
          ELSE [v |-> j, hops |-> <<Entry(f, r, kind)>>, inl |-> InlAt(u.slots[j].c, InlSite(r))])
